@@ -133,6 +133,10 @@ Section Prims.
     else if length buf <? hi then Panic
     else Ok (firstn lo buf ++ repeat v (hi - lo) ++ skipn hi buf).
 
+  (* if lo < hi { buf[lo..hi].fill(v) } *)
+  Definition fill_if (buf : bytes) (lo hi : nat) (v : N) : res E bytes :=
+    if lo <? hi then fill_range buf lo hi v else Ok buf.
+
   (* f(&mut buf[lo..hi]) where f returns (value, new contents of the sub-slice) *)
   Definition with_sub {A} (buf : bytes) (lo hi : nat) (f : bytes -> res E (A * bytes))
     : res E (A * bytes) :=
